@@ -108,3 +108,77 @@ def regex_to_smt(pattern, ignorecase=False):
         from .terms import register_re
         register_re(_CACHE[key], ('(?i:%s)' % pattern) if ignorecase else pattern)
     return _CACHE[key]
+
+
+def match_language(pattern, ignorecase=False):
+    """RegLan text of {s | re.compile(pattern).match(s) is not None} for patterns whose only anchors are an optional
+    leading ^ and an optional trailing $ at top level (no MULTILINE): body, then an optional "\\n" when the pattern ends
+    with $ (Python's $ also matches before a final newline), otherwise any suffix."""
+    key = ('match', pattern, ignorecase)
+    if key in _CACHE:
+        return _CACHE[key]
+    items = list(sre_parse.parse(pattern))
+    if items and items[0][0] is sre_c.AT and items[0][1] is sre_c.AT_BEGINNING:
+        items = items[1:]
+    at_end = False
+    if items and items[-1][0] is sre_c.AT and items[-1][1] is sre_c.AT_END:
+        items, at_end = items[:-1], True
+
+    def no_anchor(its):
+        for op, av in its:
+            if op is sre_c.AT:
+                raise ValueError('anchor inside the pattern')
+            if op is sre_c.SUBPATTERN:
+                no_anchor(av[3])
+            elif op is sre_c.BRANCH:
+                for b in av[1]:
+                    no_anchor(b)
+            elif op in (sre_c.MAX_REPEAT, sre_c.MIN_REPEAT):
+                no_anchor(av[2])
+    no_anchor(items)
+    body = _cat(_conv(items, ignorecase))
+    tail = '(re.opt (str.to_re "\\u{a}"))' if at_end else 're.all'
+    r = '(re.++ %s %s)' % (body, tail)
+    from .terms import register_re
+    body_py = ''.join(_unparse(items))
+    register_re(r, '(?s:%s%s)' % (body_py, '\\n?' if at_end else '.*'))
+    _CACHE[key] = r
+    return r
+
+
+def _unparse(items):
+    """Python source of the (anchor-free) item list, for the reference evaluator."""
+    out = []
+    for op, av in items:
+        if op is sre_c.LITERAL:
+            import re as _re
+            out.append(_re.escape(chr(av)))
+        elif op is sre_c.ANY:
+            out.append('[^\\n]')
+        elif op is sre_c.IN:
+            neg, parts = False, []
+            import re as _re
+            for o2, a2 in av:
+                if o2 is sre_c.NEGATE:
+                    neg = True
+                elif o2 is sre_c.LITERAL:
+                    parts.append(_re.escape(chr(a2)))
+                elif o2 is sre_c.RANGE:
+                    parts.append('%s-%s' % (_re.escape(chr(a2[0])), _re.escape(chr(a2[1]))))
+                elif o2 is sre_c.CATEGORY:
+                    parts.append({sre_c.CATEGORY_DIGIT: '0-9', sre_c.CATEGORY_SPACE: ' \\t-\\r',
+                                  sre_c.CATEGORY_WORD: '0-9A-Za-z_'}[a2])
+            out.append('[%s%s]' % ('^' if neg else '', ''.join(parts)))
+        elif op in (sre_c.MAX_REPEAT, sre_c.MIN_REPEAT):
+            lo, hi, sub = av
+            q = '{%d,%s}' % (lo, '' if hi is sre_c.MAXREPEAT else hi)
+            out.append('(?:%s)%s' % (''.join(_unparse(sub)), q))
+        elif op is sre_c.SUBPATTERN:
+            out.append('(?:%s)' % ''.join(_unparse(av[3])))
+        elif op is sre_c.BRANCH:
+            out.append('(?:%s)' % '|'.join(''.join(_unparse(b)) for b in av[1]))
+        elif op is sre_c.CATEGORY:
+            out.append({sre_c.CATEGORY_DIGIT: '[0-9]', sre_c.CATEGORY_SPACE: '[ \\t-\\r]', sre_c.CATEGORY_WORD: '[0-9A-Za-z_]'}[av])
+        else:
+            raise ValueError('regex construct %r not supported' % (op,))
+    return out
